@@ -84,6 +84,20 @@ func runFile(c *fw.Ctx, f filedrv.File) {
 			}
 		}
 	}
+	if f.Long {
+		// thousands of blocks: landmarks of every 97th block only, and a coarse stride elsewhere
+		interesting = map[int]bool{}
+		for bi, b := range f.Layout.Blocks {
+			if bi%97 == 0 || bi == len(f.Layout.Blocks)-1 {
+				for _, x := range []int{b.Start, b.SizeOff, b.PayloadStart, b.PayloadEnd, b.End} {
+					for d := -1; d <= 1; d++ {
+						interesting[x+d] = true
+					}
+				}
+			}
+		}
+		stride = 2003
+	}
 	for cut := 0; cut <= len(f.Data); cut++ {
 		if f.Big && cut > f.Layout.HeaderEnd+3 && !interesting[cut] && cut%stride != 0 {
 			continue
@@ -144,7 +158,7 @@ func init() {
 			if tier == "thorough" {
 				n = 5
 			}
-			return fmt.Sprintf("every cut position 0..len of every file of the family {3 schemas} × {null,deflate,snappy} × every composition of <=%d records into blocks (records of 1..200 encoded bytes; plus a 70-record block per codec for 2-byte count varints; plus, per codec, two Big files — a 3000-record highly compressible block and a 3/90/3-record file whose middle block is >100 KiB on the wire — cut at every header position, within ±3 of every block landmark and 64 KiB chunk boundary, and at every 97th/251st byte elsewhere), written by the reference writer, × reader {full reads, 1-byte reads, data together with EOF, a *bytes.Buffer, a *bufio.Reader with a 16-byte buffer, a reader whose every other Read returns (0, nil)}; a case is one (file, cut, reader mode); non-trivial = ReadFile ran on the prefix and its deliveries and error were compared with the oracle derived from the reference layout", n)
+			return fmt.Sprintf("every cut position 0..len of every file of the family {3 schemas} × {null,deflate,snappy} × every composition of <=%d records into blocks (records of 1..200 encoded bytes; plus a 70-record block per codec for 2-byte count varints; plus, per codec, two Big files — a 3000-record highly compressible block and a 3/90/3-record file whose middle block is >100 KiB on the wire — cut at every header position, within ±3 of every block landmark and 64 KiB chunk boundary, and at every 97th/251st byte elsewhere; plus per codec a file of 2400 blocks of changing size cut at the landmarks of every 97th block and every 2003rd byte), written by the reference writer, × reader {full reads, 1-byte reads, data together with EOF, a *bytes.Buffer, a *bufio.Reader with a 16-byte buffer, a reader whose every other Read returns (0, nil)}; a case is one (file, cut, reader mode); non-trivial = ReadFile ran on the prefix and its deliveries and error were compared with the oracle derived from the reference layout", n)
 		},
 		Assumptions: []string{
 			"files are produced by the reference writer (ref.WriteFile), whose layout offsets define which blocks are completely present at a cut",
